@@ -285,6 +285,19 @@ def drv_false_or_model(drv, line):
     return a.rsplit(";", 1)[-1] if a.startswith("ok:") else "false"
 
 
+def parse_cands(ans):
+    """candidate list of a `verify_cands` answer, or None when the answer does not have the expected shape"""
+    if not isinstance(ans, str) or not ans.startswith("ok:"):
+        return None
+    out = []
+    for h in ans[3:].split(","):
+        try:
+            out.append(b"" if h == "-" else bytes.fromhex(h))
+        except ValueError:
+            return None
+    return out
+
+
 def flip(data: bytes, bit: int) -> bytes:
     b = bytearray(data)
     b[bit // 8] ^= 1 << (bit % 8)
@@ -310,6 +323,7 @@ def run(ck):
 
     import time
     marks = [("start", time.time())]
+    ck.spec_ops = set()  # every op of drv_c08 evaluates Model/Keys*.lean over Generated/KeysTables.lean: none is Spec-only; no oracle uses the driver
     ck.lean_obligations(generated=["KeysTables"])
     drv = ck.driver()
     marks.append(("lean", time.time()))
@@ -664,11 +678,12 @@ def run(ck):
         if drv is None:
             return
         der_t, pem_t, onc = ext_tokens(data)
-        nums = drv.ask("rsa_numbers " + hexs(data))
+        # would `cryptography` accept the RSA numbers the implementation reads from this blob?  (input of the model's `Ext`, taken from the
+        # real code - never from the driver: a driver answer may only ever be compared)
         rsaok = "0"
-        if nums.startswith("ok:"):
-            n0, e0 = (int(v) for v in nums[3:].split(","))
-            rsaok = "1" if pyres(lambda: rsa.RSAPublicNumbers(e0, n0).public_key())[0] == "ok" else "0"
+        rn = pyres(PublicKeyRsa.recreate_public_numbers, data)
+        if rn[0] == "ok":
+            rsaok = "1" if pyres(lambda: rsa.RSAPublicNumbers(rn[1].e, rn[1].n).public_key())[0] == "ok" else "0"
         reqs_pub.append(((tag, "rsa_numbers", data), "rsa_numbers " + hexs(data),
                          (lambda r: f"ok:{r[1].n},{r[1].e}" if r[0] == "ok" else r[0])(pyres(PublicKeyRsa.recreate_public_numbers, data))))
         for which, fn in (("any", PublicKey.parse), ("rsa", PublicKeyRsa.parse), ("ecc", PublicKeyEcc.parse), ("rsa_data", PublicKeyRsa.recreate_from_data)):
@@ -1284,9 +1299,12 @@ def run(ck):
                 alg = "ecdsa" if isinstance(ipub, PublicKeyEcc) else ("rsa_pss" if is_pss(crt) else "rsa_v15")
                 hname = crt.cert.signature_hash_algorithm.name
                 if drv is not None:
-                    mp = drv.ask(f"cert_call {alg}") == "ok:true"
-                    pred = pyres(ipub.verify_signature, crt.signature, crt.tbs_certificate_bytes, HASHES[hname][0], pss_padding=mp)
-                    s3.compare(("cert_call",) + inp, canon(r1), canon(pred), "Certificate.validate differs from verify_signature with the model's parameters")
+                    ma = drv.ask(f"cert_call {alg}")
+                    if ma in ("ok:true", "ok:false"):
+                        pred = canon(pyres(ipub.verify_signature, crt.signature, crt.tbs_certificate_bytes, HASHES[hname][0], pss_padding=(ma == "ok:true")))
+                    else:
+                        pred = "malformed driver answer: " + str(ma)[:60]
+                    s3.compare(("cert_call",) + inp, canon(r1), pred, "Certificate.validate differs from verify_signature with the model's parameters")
             if depth >= 2:
                 i, j = rng.sample(range(depth), 2)
                 sw = list(chain)
@@ -1465,10 +1483,11 @@ def run(ck):
                 if not s4.expect(r[0] == "ok", inp, "get_signature_provider fails", r):
                     continue
                 g, used = padding_used(r[1])
-                if is_rsa and drv is not None:
-                    m = drv.ask(line)
-                    model_pss = m.endswith("true")
-                    s4.compare(inp, "pss" if used == "pss" else "v15", "pss" if model_pss else "v15", "padding used differs from the model of the parameter plumbing")
+                if is_rsa:
+                    if drv is not None:
+                        m = str(drv.ask(line))
+                        model_used = "pss" if m.startswith("ok:") and m.endswith("true") else "v15" if m.startswith("ok:") and m.endswith("false") else "malformed driver answer: " + m[:60]
+                        s4.compare(inp, "pss" if used == "pss" else "v15", model_used, "padding used differs from the model of the parameter plumbing")
                     want = "pss" if vtb(pss) else "v15"
                     s4.expect(used == want, inp, "a provider created with pss_padding=<true value> does not sign with PSS (or the reverse)", used, want)
                 # signature_length = actual length = model
@@ -1571,26 +1590,29 @@ def run(ck):
     marks.append(("cli_raw_keys", time.time()))
 
     # correspondence for verify_signature: SPSDK's answer = "the backend accepts one of the model's candidate encodings"
+    def model_verdict(ans, pobj, data, hcls, prehashed=False):
+        cands = parse_cands(ans)
+        if cands is None:
+            return "malformed driver answer: " + str(ans)[:60]
+        return canon(("ok", any(crypto_verify_ec(pobj, c, data, hcls, prehashed) for c in cands)))
     if drv is not None and vreqs:
         answers = drv.batch([f"verify_cands {curve} {hexs(sig)}" for (_i, curve, sig, *_r) in vreqs])
         for (inp, curve, sig, pobj, data, hcls, prehashed, real), ans in zip(vreqs, answers):
-            cands = [bytes.fromhex(h) if h != "-" else b"" for h in ans[3:].split(",")] if ans.startswith("ok:") else []
-            model = any(crypto_verify_ec(pobj, c, data, hcls, prehashed) for c in cands)
-            s.compare(("verify",) + tuple(inp), canon(real), canon(("ok", model)), "verify_signature differs from 'backend accepts one of the model's candidate encodings'")
-        # and on damaged inputs: raw-length garbage, DER of raw length, wrong lengths
-        label, k = keys[0]
-        pub = k.get_public_key()
-        cl = CURVES[k.curve.value]["cl"]
-        good = k.sign(b"m")
-        junk = [good[:-1], good + b"\x00", bytes(2 * cl), b"\x30" * (2 * cl), b"", good[::-1], cutils.encode_dss_signature(1, 1)]
-        answers = drv.batch([f"verify_cands {k.curve.value} {hexs(j)}" for j in junk])
-        for j, ans in zip(junk, answers):
-            cands = [bytes.fromhex(h) if h != "-" else b"" for h in ans[3:].split(",")]
-            model = any(crypto_verify_ec(pub.key, c, b"m", chashes.SHA256) for c in cands)
-            real = pyres(pub.verify_signature, j, b"m")
-            s.note(("verify-junk", j), nontrivial=False, cls="junk")
-            s.compare(("verify-junk", j), canon(real), canon(("ok", model)))
-            s.expect(real == ("ok", False), ("verify-junk", j), "a damaged signature verifies or raises", real, False)
+            s.compare(("verify",) + tuple(inp), canon(real), model_verdict(ans, pobj, data, hcls, prehashed),
+                      "verify_signature differs from 'backend accepts one of the model's candidate encodings'")
+    # damaged inputs: raw-length garbage, DER of raw length, wrong lengths (oracle independent of the driver; model compared when available)
+    label, k = keys[0]
+    pub = k.get_public_key()
+    cl = CURVES[k.curve.value]["cl"]
+    good = k.sign(b"m")
+    junk = [good[:-1], good + b"\x00", bytes(2 * cl), b"\x30" * (2 * cl), b"", good[::-1], cutils.encode_dss_signature(1, 1)]
+    answers = drv.batch([f"verify_cands {k.curve.value} {hexs(j)}" for j in junk]) if drv is not None else [None] * len(junk)
+    for j, ans in zip(junk, answers):
+        real = pyres(pub.verify_signature, j, b"m")
+        s.note(("verify-junk", j), nontrivial=False, cls="junk")
+        if drv is not None:
+            s.compare(("verify-junk", j), canon(real), model_verdict(ans, pub.key, b"m", chashes.SHA256))
+        s.expect(real == ("ok", False), ("verify-junk", j), "a damaged signature verifies or raises", real, False)
     marks.append(("verify_correspondence", time.time()))
     ck.extra["timing_s"] = {marks[i][0]: round(marks[i][1] - marks[i - 1][1], 2) for i in range(1, len(marks))}
 
